@@ -37,10 +37,21 @@ func (c *PartnersAndChildren) WriteHTMLTo(w io.Writer) (int64, error) {
 	spouses := c.individual.Spouses()
 
 	for _, spouse := range spouses {
+		family := c.individual.FamilyWithSpouse(spouse)
+		shownSpouse := spouse
+
 		if spouse.IsLiving() {
 			switch c.visibility {
 			case LivingVisibilityHide:
-				continue
+				// The children of a hidden spouse are listed in this section.
+				// Those that are not living must stay published, so the
+				// section is kept with an unknown partner (as for a family
+				// without a spouse) when there is such a child.
+				if !hasVisibleChild(family, c.visibility) {
+					continue
+				}
+
+				shownSpouse = nil
 
 			case LivingVisibilityShow, LivingVisibilityPlaceholder:
 				// Proceed.
@@ -51,10 +62,9 @@ func (c *PartnersAndChildren) WriteHTMLTo(w io.Writer) (int64, error) {
 
 		columns := []*core.Column{
 			core.NewColumn(core.QuarterRow, NewIndividualButton(c.document,
-				spouse, c.visibility, c.placesMap)),
+				shownSpouse, c.visibility, c.placesMap)),
 		}
 
-		family := c.individual.FamilyWithSpouse(spouse)
 		if family != nil {
 			columns, rows = partnerSection(family, c, columns, rows)
 		}
@@ -97,6 +107,27 @@ func (c *PartnersAndChildren) WriteHTMLTo(w io.Writer) (int64, error) {
 	}
 
 	return core.NewComponents(rows...).WriteHTMLTo(w)
+}
+
+// hasVisibleChild is true if the family has a child that partnerSection will
+// show with the visibility.
+func hasVisibleChild(family *gedcom.FamilyNode, visibility LivingVisibility) bool {
+	if family == nil {
+		return false
+	}
+
+	for _, child := range family.Children() {
+		individual := child.Individual()
+		if individual == nil {
+			continue
+		}
+
+		if visibility != LivingVisibilityHide || !individual.IsLiving() {
+			return true
+		}
+	}
+
+	return false
 }
 
 func partnerSection(family *gedcom.FamilyNode, c *PartnersAndChildren, columns []*core.Column, rows []core.Component) ([]*core.Column, []core.Component) {
